@@ -261,3 +261,11 @@ Definition platform_tags (p : penv) : option (list str) :=
   else if streq (pe_system p) s_iOS then ios_default (pe_ios_release p) (pe_multiarch p)
   else if streq (pe_system p) s_Linux then Some (linux_platforms false (pe_get_platform p) (pe_menv p) (pe_musl_stderr p))
   else Some [normalize_string (pe_get_platform p)].
+
+(* ---------------------------------------------------------------- functools.lru_cache on the argument-less libc probe *)
+(* one memo cell; a call made in an environment whose uncached answer would be [now] *)
+Definition probe_cache := option (option (nat * nat)).
+Definition cached_probe (c : probe_cache) (now : option (nat * nat)) : probe_cache * option (nat * nat) :=
+  match c with Some v => (c, v) | None => (Some now, now) end.
+Fixpoint run_probes (c : probe_cache) (envs : list (option (nat * nat))) : list (option (nat * nat)) :=
+  match envs with [] => [] | now :: t => let '(c', v) := cached_probe c now in v :: run_probes c' t end.
